@@ -31,6 +31,7 @@ type sess struct {
 	kind    string // polling | polling3 | websocket
 	pc      *PollClient
 	ws      *WSClient
+	wc      *WTClient
 	rec     *SockRec
 	pending *Resp // outstanding poll of the set-up phase, if any
 	causes  map[string]bool
@@ -73,6 +74,30 @@ func (s *sess) startActor() {
 		})
 		return
 	}
+	if s.wc != nil {
+		vsched.GoNamed("actor", func() {
+			s.w.BeginAction()
+			seen := 0
+			fs := s.wc.Stream
+			for i := 0; i < 200; i++ {
+				vsched.WaitFor(uintptr(unsafe.Pointer(fs)), "actor-read", func() bool { return len(fs.out) > s.wc.parsed || fs.closed || s.wc.Closed() })
+				pk, _ := s.wc.Pkts()
+				for _, q := range pk[seen:] {
+					switch q.Type {
+					case '2':
+						s.wc.SendPkt(Pkt{Type: '3'})
+					case '4':
+						s.got = append(s.got, q)
+					}
+				}
+				seen = len(pk)
+				if fs.closed || s.wc.Closed() {
+					return
+				}
+			}
+		})
+		return
+	}
 	vsched.GoNamed("actor", func() {
 		s.w.BeginAction()
 		seen := 0
@@ -101,7 +126,7 @@ func sessOpts() *config.ServerOptions {
 	o.SetPingInterval(sPingInterval)
 	o.SetPingTimeout(sPingTimeout)
 	o.SetAllowEIO3(true)
-	o.SetTransports(types.NewSet("polling", "websocket"))
+	o.SetTransports(types.NewSet("polling", "websocket", "webtransport"))
 	return o
 }
 
@@ -153,6 +178,10 @@ func openSessionOpt(x *vsched.Exec, w *World, kind string, pendingPoll bool, wsE
 			x.Fail("setup: websocket handshake refused: %d", s.ws.Resp.Code)
 			return nil
 		}
+	case "webtransport":
+		s.wc = w.DialWT(0)
+		s.wc.Handshake()
+		x.Settle()
 	}
 	if len(w.Socks) != 1 {
 		x.Fail("setup: %d sessions", len(w.Socks))
@@ -173,6 +202,8 @@ var causeReason = map[string]string{
 	"close-true":     "forced close",
 	"server-close":   "forced close",
 	"ws-drop":        "transport close",
+	"wt-drop":        "transport close",
+	"wt-garbage":     "parse error",
 	"ws-close-frame": "transport close",
 	"ws-garbage":     "parse error",
 	"ws-close-pkt":   "transport close",
@@ -227,6 +258,12 @@ func (s *sess) action(name string) func() {
 			s.rec.Sock.Send(types.NewStringBufferString("t1"), nil, nil)
 			s.rec.Sock.Send(types.NewStringBufferString("t2"), nil, nil)
 		}
+	case "wt-drop":
+		return func() { s.wc.Stream.PeerClose() }
+	case "wt-garbage":
+		return func() { s.wc.SendRaw(wtEncode(wtMsg{false, []byte("zzz")}, 0)) }
+	case "wt-msg":
+		return func() { s.wc.SendPkt(Msg("c1")) }
 	case "ws-drop":
 		return func() { s.ws.Drop() }
 	case "ws-close-frame":
@@ -287,6 +324,10 @@ func (s *sess) run(actions []string) {
 		s.ws.SendPkt(Msg("late-client"))
 		x.Settle()
 	}
+	if s.wc != nil && closedBefore {
+		s.wc.SendPkt(Msg("late-client"))
+		x.Settle()
+	}
 	// let every timer run out: heartbeat closes a silent session at the latest
 	x.Run(x.Now() + 100*time.Second)
 }
@@ -312,7 +353,7 @@ func (s *sess) allowedReasons(actions []string, at time.Duration) map[string]boo
 			polls++
 		case "close-false", "close-true", "server-close":
 			appClose = true
-		case "ws-drop", "ws-close-frame":
+		case "ws-drop", "ws-close-frame", "wt-drop":
 			peerGone = true
 		}
 	}
@@ -668,6 +709,19 @@ func sessCases(thorough bool) []sessCase {
 				}
 			}
 		}
+	}
+	// webtransport sessions (through the real session handler)
+	wtCauses := []string{"wt-drop", "wt-garbage", "close-false", "close-true", "server-close"}
+	wtAll := append(append([]string{}, wtCauses...), "send", "wt-msg")
+	add("webtransport", false, "send", "wt-msg")
+	for i, a := range wtCauses {
+		add("webtransport", false, a)
+		for _, b := range wtAll[i+1:] {
+			add("webtransport", false, a, b)
+		}
+	}
+	for _, acts := range [][]string{{"send2"}, {"send", "close-false"}, {"send2", "close-true"}} {
+		out = append(out, sessCase{kind: "webtransport", actions: acts, actor: true})
 	}
 	return out
 }
